@@ -5,7 +5,7 @@ OPS = [
     {'op': 'prelude', 'text': '#[allow(unused_imports)] use vstd::prelude::*;\n'
                               '#[allow(unused_imports)] use crate::verif_ext::*;\n'
                               '#[allow(unused_imports)] use crate::verif_spec::*;\n'
-                              '#[allow(unused_imports)] use crate::verif_tables::*;\n#[allow(unused_imports)] use vstd::std_specs::iter::IteratorSpec;\n'
+                              '#[allow(unused_imports)] use crate::verif_tables::*;\n'
                               'verus! { broadcast use {crate::verif_ext::group_ipp_seq, crate::verif_ext::group_ipp_btree}; }'},
     {'op': 'wrap', 'items': ['fn value_too_short', 'fn get_len_string', 'enum IppValue', 'impl IppValue'],
      'others': 'external_body', 'named': ['to_tag', 'parse', 'to_bytes']},
@@ -18,13 +18,12 @@ OPS = [
            &&& ok ==> (r->Ok_0)@ == lossy(b.skip(2).take(be16(b) as int)) && buf_seq(final(data)) == b.skip(2).skip(be16(b) as int)
            &&& ok ==> utf8((r->Ok_0)@).len() <= 3 * 0xffff
         }),''',
-     'proofs': [{'before': 'let s = String::from_utf8_lossy', 'optional': True,
-                 'text': 'proof { axiom_lossy_len(buf_seq(data).take(len as int)); }'}]},
+     'proofs': [{'at_start': True, 'text': 'broadcast use crate::verif_ext::axiom_lossy_len;'}]},
     {'op': 'fn', 'path': 'IppValue::to_tag', 'ret': 'r',
-     'attrs': ['#[verifier::exec_allows_no_decreases_clause]'],
-     'spec': '    ensures r == spec_tag(aval(*self)),',
-     'closures': {0: {'expect_params': '|v|', 'types': {'v': '&IppValue'}, 'ret': 't: u8',
-                      'spec': '    ensures t == spec_tag(aval(*v))'}}},
+     'spec': '    ensures r == spec_tag(aval(*self)),\n    decreases (if *self is Array || *self is Collection { 1int } else { 0int }), *self,' ,
+     'proofs': [{'at_start': True, 'text': 'broadcast use vstd::std_specs::vec::axiom_vec_index_decreases;'}],
+     'closures': {0: {'expect_params': '|v|', 'optional': True, 'types': {'v': '&IppValue'}, 'ret': 't: u8',
+                      'spec': '    requires decreases_to!(*self => *v),\n    ensures t == spec_tag(aval(*v))'}}},
     {'op': 'fn', 'path': 'IppValue::parse', 'ret': 'r',
      'spec': '''    ensures
         r is Ok ==> is_scalar(r->Ok_0) && Some(aval_scalar(r->Ok_0)) == spec_val_dec(value_tag, buf_seq(&data)),
@@ -32,15 +31,17 @@ OPS = [
         r is Ok ==> size_ok(aval(r->Ok_0)),''',
      'proofs': [{'before': 'let ipp_tag', 'text': 'proof { axiom_value_tag_from(value_tag as int); }'}]},
     {'op': 'fn', 'path': 'IppValue::to_bytes', 'ret': 'r',
-     'attrs': ['#[verifier::exec_allows_no_decreases_clause]'],
      'loops': {1: {'iter_name': 'it', 'spec': '''
         invariant
             *self matches IppValue::Collection(m0) && m0@ == list@,
             size_ok(aval(*self)),
-            bt_iter_facts(list@, it.snapshot@.remaining()),
+            bt_iter_facts(list@, it_rem(it.snapshot@)),
             wf16(aval(*self)) ==> buf_seq(&buffer) == enc16(0) + members_enc(aval(*self)->members, it.index@ as nat),
 '''}},
-     'proofs': [{'before': 'for item in list.iter()', 'optional': True,
+     'proofs': [{'before': 'buffer.put(item.to_bytes());', 'optional': True,
+                 'text': '''proof { // termination: the element is a sub-term of *self
+                        let ghost l0 = self->Array_0; vstd::std_specs::vec::axiom_vec_index_decreases(l0, i as int); }'''},
+                {'before': 'for item in list.iter()', 'optional': True,
                  'text': 'proof { axiom_string_obeys_cmp(); broadcast use vstd::std_specs::btree::group_btree_axioms; }'},
                 {'after': 'let atr_name = IppValue::MemberAttrName(item.0.to_string());', 'optional': True,
                  'text': 'proof { axiom_to_string_string(item.0, atr_name->MemberAttrName_0); }'},
@@ -48,9 +49,14 @@ OPS = [
                         let ghost k = bt_order(list@.dom())[it.index@];
                         assert(*item.0 == k && list@.contains_key(k) && list@[k] == *item.1);
                         assert((aval(*self)->members)[it.index@] == (k, aval(list@[k])));
+                        // termination: the member value is a sub-term of *self (vstd's structural axioms)
+                        let ghost m0 = self->Collection_0;
+                        vstd::std_specs::btree::axiom_btree_map_decreases(m0);
+                        vstd::map::axiom_map_index_decreases(m0@, k);
                     }'''}],
      'spec': '''    requires size_ok(aval(*self)),
-    ensures wf16(aval(*self)) ==> buf_seq(&r) == spec_val_enc(aval(*self)),''',
+    ensures wf16(aval(*self)) ==> buf_seq(&r) == spec_val_enc(aval(*self)),
+    decreases (if *self is Array || *self is Collection { 1int } else { 0int }), *self,''',
      'w8': [{'loop': 0, 'kind': 'enumerate', 'spec': '''
         invariant
             0 <= i <= list@.len(),
